@@ -3,6 +3,7 @@ from __future__ import annotations
 
 import itertools
 import json
+import re
 import os
 import random
 import signal
@@ -335,7 +336,7 @@ def seg_kinds(segs):
 
 def new_stats():
     return {"n": 0, "out_of_model": 0, "roundtrip": 0, "nontrivial": 0, "dot_excluded": 0, "wf_lists": 0,
-            "nonwf_lists": 0, "appendpop": 0, "eqpairs": 0}
+            "nonwf_lists": 0, "appendpop": 0, "eqpairs": 0, "respelled": 0, "respelled_judged": 0}
 
 
 def text_chunk(texts, origin="text"):
@@ -717,6 +718,31 @@ def impl_appendpop(t, seg, via_add):
     return _guard(go)
 
 
+def respellings(seg, st):
+    """Other spellings of one segment's canonical text `st` (the caller checks that a spelling parses to the segment)."""
+    out = []
+    kind = seg[0]
+    if st.startswith("[") and st.endswith("]") and len(st) > 2:
+        out.append("[ " + st[1:-1] + " ]")
+        for op in ("!=", "=~", "<=", ">=", "=", "<", ">", "^", "$", "%", ":"):
+            i = st.find(op, 1)
+            if i > 0:
+                out.append(st[:i] + " " + op + " " + st[i + len(op):])
+                break
+    if kind == "ANCHOR" and st.startswith("&"):
+        out.append("[" + st + "]")
+    if kind == "KEY":
+        raw = re.sub(r"\\(.)", r"\1", st)
+        for q in ("'", '"'):
+            if q not in raw and "\\" not in raw and raw:
+                out.append(q + raw + q)
+    if kind == "COLLECTOR" and "(" in st:
+        i = st.index("(")
+        if st.endswith(")"):
+            out.append(st[:i + 1] + " " + st[i + 1:-1] + " )")
+    return out[:3]
+
+
 def appendpop_chunk(cases):
     """cases: (base segs, appended segment, form, via_add)."""
     drv = core.Driver()
@@ -743,13 +769,35 @@ def appendpop_chunk(cases):
             continue
         st = r["ok"] if form == "dot" else r["ok"][1:]
         reqs.append({"op": "C08.appendpop", "t": t, "seg": st, "add": via_add})
-        meta.append((base, seg, form, via_add, t, st))
+        meta.append((base, seg, form, via_add, t, st, False))
+        # the same segment spelled another way the notation allows (demarcated key, bracketed anchor, padding inside
+        # brackets and parentheses): append() takes any segment text, pop() has to take the segment off again
+        for alt in respellings(seg, st):
+            reqs.append({"op": "C08.appendpop", "t": t, "seg": alt, "add": via_add})
+            meta.append((base, seg, form, via_add, t, alt, True))
     ans = drv.ask(reqs)
-    for (base, seg, form, via_add, t, st), mo in zip(meta, ans):
+    for (base, seg, form, via_add, t, st, respelled), mo in zip(meta, ans):
         stats["n"] += 1
         stats["appendpop"] += 1
         im = impl_appendpop(t, st, via_add)
         case = {"kind": "appendpop", "text": t, "seg_text": st, "add": via_add, "base": base, "seg": seg}
+        if respelled:
+            stats["respelled"] = stats.get("respelled", 0) + 1
+            if "crash" in im or "timeout" in im or norm(im.get("app_esc")) != {"ok": base + [seg]}:
+                continue    # this respelling does not denote the segment here (not append's fault): nothing to judge
+            stats["respelled_judged"] = stats.get("respelled_judged", 0) + 1
+            p = im["pop"]
+            if "crash" in p:
+                viol.append(("crash:%s@%s" % (p["crash"], p.get("site")), "pop() after append(%r) to %r raised %s" % (st, t, p["crash"]), case))
+            elif "ok" not in p or norm(p["ok"]["after_esc"]) != {"ok": base} or p["ok"]["seg"][0] != seg[0]:
+                viol.append(("append-pop:respelled:" + form + ":" + seg_kinds([seg]),
+                             "append(%r) then pop() on %r leaves %s: the path is not restored (segments %s expected)" % (st, t, json.dumps(p), json.dumps(base)), case))
+            elif parsing.in_model_text(t + st) and "ok" in mo.get("pop", {}):
+                mm = {"after": mo["pop"]["ok"]["after"], "after_esc": norm(mo["pop"]["ok"]["after_esc"])}
+                ii = {"after": p["ok"]["after"], "after_esc": norm(p["ok"]["after_esc"])}
+                if mm != ii:
+                    disag.append(("corr:appendpop-respelled", "append/pop of %r on %r: implementation %s, model %s" % (st, t, json.dumps(ii), json.dumps(mm)), case))
+            continue
         if "crash" in im or "timeout" in im:
             viol.append(("crash:append", "append(%r) to %r raised %s" % (st, t, im), case))
             continue
@@ -1024,6 +1072,6 @@ def run(chk: core.Check):
     chk.evaluations += tot["n"]
     chk.out_of_model += tot["out_of_model"]
     chk.nontrivial_extra = tot["nontrivial"]
-    for k in ("roundtrip", "dot_excluded", "wf_lists", "nonwf_lists", "appendpop", "eqpairs"):
+    for k in ("roundtrip", "dot_excluded", "wf_lists", "nonwf_lists", "appendpop", "eqpairs", "respelled", "respelled_judged"):
         chk.count(k, tot[k])
     return chk
